@@ -378,6 +378,9 @@ structure Tables (α : Type) where
 /-- answers; `exc` = an exception reaches the caller -/
 inductive Ans (α : Type) where
   | exc
+  /-- undefined behaviour in the C++: a `std::vector` is indexed out of range / an iterator is
+  dereferenced past the end -/
+  | ub
   | val (x : α)
   | mat (m : List (List α))
 deriving DecidableEq
@@ -387,7 +390,17 @@ inductive Op (α : Type) where
   | setTables (t : Tables α)
   | setBreaks (bps : List Nat)
   | logLik
+  /-- `getHiddenStatesPosteriorProbabilities(probs, false)` on an empty vector -/
   | posterior
+  /-- `getHiddenStatesPosteriorProbabilities(probs, append)` where `probs` holds the rows `buf` on entry;
+  the answer is `probs` on return -/
+  | posteriorInto (buf : List (List α)) (append : Bool)
+  /-- `getHiddenStatesPosteriorProbabilitiesForASite(site)` -/
+  | posteriorSite (site : Nat)
+  /-- `getLikelihoodForASite(site)` -/
+  | siteLik (site : Nat)
+  /-- `getLikelihoodForEachSite()` -/
+  | siteLiks
   /-- `getFirstOrderDerivative(var)` -/
   | d1 (var : String)
   /-- `getSecondOrderDerivative(var)` -/
@@ -418,6 +431,21 @@ def RescObj.build (t : Tables α) : Option (RescObj α) :=
     { tab := t, bps := [], fw := fw, back := [], backUpToDate := false, dVar := "", dfw := emptyD,
       d2Var := "", d2LogLik := zero })
 
+/-- `(*emissionProbabilities_)(site)`; `none` = no such position (the C++ indexes out of range) -/
+def Tables.emisAt (t : Tables α) (site : Nat) : Option (Emis α) :=
+  match site with
+  | 0 => some t.e0
+  | s + 1 => t.es[s]?
+
+/-- `ret[i] = Σ_j vv[i][j] * e(i, j)` -/
+def siteLiksOf (t : Tables α) (post : List (List α)) : List α :=
+  List.zipWith (fun r e => siteLik t.p r e) post (t.e0 :: t.es)
+
+/-- `if (!backLikelihoodUpToDate_) computeBackward_();` -/
+def RescObj.refreshBack (o : RescObj α) : RescObj α :=
+  if o.backUpToDate then o
+  else { o with back := rescBackward o.tab.p o.tab.es o.fw.scales o.bps, backUpToDate := true }
+
 def RescObj.step (o : RescObj α) : Op α → RescObj α × Ans α
   | .setTables t =>
     -- fireParameterChanged (RescaledHmmLikelihood.cpp:73): the sub-objects already hold the new values
@@ -433,10 +461,31 @@ def RescObj.step (o : RescObj α) : Op α → RescObj α × Ans α
     | some fw => ({ o1 with fw := fw, backUpToDate := false }, .val fw.logLik)
   | .logLik => (o, .val o.fw.logLik)
   | .posterior =>
-    -- getHiddenStatesPosteriorProbabilities (RescaledHmmLikelihood.cpp:346)
+    -- getHiddenStatesPosteriorProbabilities (RescaledHmmLikelihood.cpp:352)
     let o1 := if o.backUpToDate then o
       else { o with back := rescBackward o.tab.p o.tab.es o.fw.scales o.bps, backUpToDate := true }
     (o1, .mat (posteriorOf o1.fw.lik o1.back))
+  | .posteriorInto buf append =>
+    -- :354-359 `offset = append ? probs.size() : 0; probs.resize(offset + nbSites_)`, every row
+    -- `offset + i` is resized to `nbStates_` and then written completely (:364-371): without `append`
+    -- nothing of `buf` survives, with `append` all of it does
+    let o1 := o.refreshBack
+    (o1, .mat ((if append then buf else []) ++ posteriorOf o1.fw.lik o1.back))
+  | .posteriorSite site =>
+    -- getHiddenStatesPosteriorProbabilitiesForASite (:336-349): `likelihood_[site * n + j] * backLikelihood_[site][j]`,
+    -- i.e. row `site` of the product above; no range check
+    let o1 := o.refreshBack
+    (o1, match (posteriorOf o1.fw.lik o1.back)[site]? with | some r => .mat [r] | none => .ub)
+  | .siteLik site =>
+    -- getLikelihoodForASite (:304-314)
+    let o1 := o.refreshBack
+    (o1, match (posteriorOf o1.fw.lik o1.back)[site]?, o.tab.emisAt site with
+      | some r, some e => .val (siteLik o.tab.p r e)
+      | _, _ => .ub)
+  | .siteLiks =>
+    -- getLikelihoodForEachSite (:316-332)
+    let o1 := o.refreshBack
+    (o1, .mat [siteLiksOf o.tab (posteriorOf o1.fw.lik o1.back)])
   | .d1 var =>
     -- AbstractHmmLikelihood::getFirstOrderDerivative (HmmLikelihood.cpp:33)
     if var != o.dVar then
@@ -462,6 +511,13 @@ def RescObj.step (o : RescObj α) : Op α → RescObj α × Ans α
 def rescSpec (t : Tables α) (bps : List Nat) : Op α → Ans α
   | .setTables _ | .setBreaks _ | .logLik => .val (rescForward t.p t.e0 (mkSites t.es bps)).logLik
   | .posterior => .mat (rescPosterior t.p t.e0 t.es bps)
+  | .posteriorInto buf append => .mat ((if append then buf else []) ++ rescPosterior t.p t.e0 t.es bps)
+  | .posteriorSite site => match (rescPosterior t.p t.e0 t.es bps)[site]? with | some r => .mat [r] | none => .ub
+  | .siteLik site =>
+    match (rescPosterior t.p t.e0 t.es bps)[site]?, t.emisAt site with
+    | some r, some e => .val (siteLik t.p r e)
+    | _, _ => .ub
+  | .siteLiks => .mat [siteLiksOf t (rescPosterior t.p t.e0 t.es bps)]
   | .d1 var =>
     let de := t.dE var
     .val (-(rescDForward t.p t.e0 t.es de.1 de.2 bps (rescForward t.p t.e0 (mkSites t.es bps))).dLogLik)
@@ -494,6 +550,21 @@ def logPosteriorOf (fw : LogFwd α) (back : List (List α)) (bps : List Nat) : O
 def logPosterior (t : Tables α) (bps : List Nat) : Option (List (List α)) :=
   logPosteriorOf (logCompute t bps) (logBackward t.p t.es bps) bps
 
+/-- `getHiddenStatesPosteriorProbabilitiesForASite(site)` (:312-336): its own walk over the break
+points (`logPostIdx1`); `none` = `site` is not a position or `logLikIt` is past the end -/
+def logPosteriorSiteOf (fw : LogFwd α) (back : List (List α)) (bps : List Nat) (site : Nat) : Option (List α) :=
+  match fw.logLik[site]?, back[site]? with
+  | some f, some b => logPostRow f b fw.partials[logPostIdx1 site bps]?
+  | _, _ => none
+
+def logPosteriorSite (t : Tables α) (bps : List Nat) (site : Nat) : Option (List α) :=
+  logPosteriorSiteOf (logCompute t bps) (logBackward t.p t.es bps) bps site
+
+/-- `if (!backLogLikelihoodUpToDate_) computeBackward_();` -/
+def LogObj.refreshBack (o : LogObj α) : LogObj α :=
+  if o.backUpToDate then o
+  else { o with back := logBackward o.tab.p o.tab.es o.bps, backUpToDate := true }
+
 def LogObj.step (o : LogObj α) : Op α → LogObj α × Ans α
   | .setTables t =>
     -- fireParameterChanged (LogsumHmmLikelihood.cpp:71)
@@ -506,12 +577,39 @@ def LogObj.step (o : LogObj α) : Op α → LogObj α × Ans α
   | .posterior =>
     let o1 := if o.backUpToDate then o
       else { o with back := logBackward o.tab.p o.tab.es o.bps, backUpToDate := true }
-    (o1, match logPosteriorOf o1.fw o1.back o1.bps with | some m => .mat m | none => .exc)
+    (o1, match logPosteriorOf o1.fw o1.back o1.bps with | some m => .mat m | none => .ub)
+  | .posteriorInto buf append =>
+    -- LogsumHmmLikelihood.cpp:338-374, same treatment of `probs` as the rescaled class
+    let o1 := o.refreshBack
+    (o1, match logPosteriorOf o1.fw o1.back o1.bps with
+      | some m => .mat ((if append then buf else []) ++ m) | none => .ub)
+  | .posteriorSite site =>
+    let o1 := o.refreshBack
+    (o1, match logPosteriorSiteOf o1.fw o1.back o1.bps site with | some r => .mat [r] | none => .ub)
+  | .siteLik site =>
+    -- getLikelihoodForASite (:279-289)
+    let o1 := o.refreshBack
+    (o1, match logPosteriorSiteOf o1.fw o1.back o1.bps site, o.tab.emisAt site with
+      | some r, some e => .val (siteLik o.tab.p r e)
+      | _, _ => .ub)
+  | .siteLiks =>
+    -- getLikelihoodForEachSite (:291-307)
+    let o1 := o.refreshBack
+    (o1, match logPosteriorOf o1.fw o1.back o1.bps with
+      | some m => .mat [siteLiksOf o.tab m] | none => .ub)
   | .d1 _ | .d2 _ => (o, .exc)   -- not modelled
 
 def logSpec (t : Tables α) (bps : List Nat) : Op α → Ans α
   | .setTables _ | .setBreaks _ | .logLik => .val (logCompute t bps).ll
-  | .posterior => match logPosterior t bps with | some m => .mat m | none => .exc
+  | .posterior => match logPosterior t bps with | some m => .mat m | none => .ub
+  | .posteriorInto buf append =>
+    match logPosterior t bps with | some m => .mat ((if append then buf else []) ++ m) | none => .ub
+  | .posteriorSite site => match logPosteriorSite t bps site with | some r => .mat [r] | none => .ub
+  | .siteLik site =>
+    match logPosteriorSite t bps site, t.emisAt site with
+    | some r, some e => .val (siteLik t.p r e)
+    | _, _ => .ub
+  | .siteLiks => match logPosterior t bps with | some m => .mat [siteLiksOf t m] | none => .ub
   | .d1 _ | .d2 _ => .exc
 
 /-! ### LowMemoryRescaledHmmLikelihood (no posteriors, no derivatives) -/
@@ -536,13 +634,18 @@ def LowObj.step (o : LowObj α) : Op α → LowObj α × Ans α
   | .setTables t => let ll := lowCompute t o.maxSize o.bps; ({ o with tab := t, logLik := ll }, .val ll)
   | .setBreaks bps => let ll := lowCompute o.tab o.maxSize bps; ({ o with bps := bps, logLik := ll }, .val ll)
   | .logLik => (o, .val o.logLik)
-  | .posterior => (o, .exc)
+  | .posterior | .posteriorInto _ _ | .posteriorSite _ | .siteLik _ | .siteLiks => (o, .exc)   -- NotImplementedException
   | .d1 var =>
     -- getFirstOrderDerivative stores the name, then computeDLikelihood_ throws NotImplementedException:
     -- a second call with the same name answers -dLogLik_ = -0
     if var != o.dVar then ({ o with dVar := var }, .exc) else (o, .val (-zero))
   | .d2 var =>
     if var != o.d2Var then ({ o with d2Var := var }, .exc) else (o, .val (-zero))
+
+/-- what a fresh object answers -/
+def lowSpec (t : Tables α) (maxSize : Nat) (bps : List Nat) : Op α → Ans α
+  | .posterior | .posteriorInto _ _ | .posteriorSite _ | .siteLik _ | .siteLiks | .d1 _ | .d2 _ => .exc
+  | _ => .val (lowCompute t maxSize bps)
 
 /-! ## AutoCorrelationTransitionMatrix (AutoCorrelationTransitionMatrix.cpp), as repaired
 (the equilibrium vector is the stationary distribution, proportional to 1/(1-λ_i)) -/
